@@ -142,7 +142,7 @@ def run_case(ctx, rng, index, casedir):
         ngroups = -(-(-(-nrec // batch)) // cores)
         scale = rng.choice([0.02, 0.05, 0.1])
         planned = {"cores": cores, "timeout_scale": scale, "max_groups": ngroups + 2}
-        if k == nexec - 1 and rng.random() < 0.2:
+        if k == nexec - 1 and rng.random() < 0.3:
             # a small host: realign clamps the requested cores with the CPU count it sees
             planned["cpu_count"] = rng.choice([1, 2, 3, 4])
             planned["affinity"] = planned["cpu_count"]  # reported CPU count and usable CPUs agree
@@ -150,6 +150,9 @@ def run_case(ctx, rng, index, casedir):
             planned["cores"] = cores
             kind = "cpu_limited"
             sit["cpu_limited_executions"] += 1
+            # early workers are held back a little: whatever runs side by side delivers out of input order
+            nworkers = -(-nrec // batch)
+            planned["worker_delays"] = {f"{wi}:before_put_0": rng.choice([0.02, 0.05, 0.1]) for wi in range(nworkers) if wi % 2 == 0 and rng.random() < 0.8}
         elif (k == 0 or rng.random() < 0.4) and not big_payload and not sized:
             planned["forced"] = {"groups": "all", "hold": rng.choice([1, 1, 2, 3])}
             kind = "forced"
